@@ -214,10 +214,48 @@ def make_function(params: Sequence[Param], fname: str = "f", flavour: str = "fun
            f"{fname} = _K_{fname}.make\n")
     exec(src, ns)  # pylint: disable=exec-used
     fn = ns[fname]
+  elif flavour == "dataclass":
+    # only PosOrKw / KwOnly parameters; every second default becomes a default_factory
+    lines = ["import dataclasses", "@dataclasses.dataclass", f"class {fname}:"]
+    products = {}
+    for i, p in enumerate(params):
+      kw = ", kw_only=True" if p.kind == "KwOnly" else ""
+      if p.default is None:
+        lines.append(f"  {p.name}: int = dataclasses.field({kw.lstrip(', ')})")
+      elif i % 2 == 0:
+        products[p.name] = p.default
+        lines.append(f"  {p.name}: int = dataclasses.field(default_factory=lambda: {p.default}{kw})")
+      else:
+        lines.append(f"  {p.name}: int = dataclasses.field(default={p.default}{kw})")
+    lines.append("  def __post_init__(self_):")
+    lines.append(f"    self_.fn = {fname!r}")
+    lines.append(f"    self_.view = {{{', '.join(f'{n!r}: self_.{n}' for n in names)}}}")
+    lines.append(f"    CALL_LOG.append(({fname!r}, self_))")
+    exec("\n".join(lines) + "\n", ns)  # pylint: disable=exec-used
+    fn = ns[fname]
+    fn._verif_factory_products = products
   else:
     raise ValueError(flavour)
-  fn.__module__ = "verif_generated"
+  try:
+    fn.__module__ = "verif_generated"
+  except AttributeError:
+    pass
   return fn
+
+
+def make_partial(params: Sequence[Param], rng, fname: str = "f"):
+  """functools.partial over a recording function; returns (callable, bound_positional, bound_kw)."""
+  import functools
+  base = make_function(params, fname, "function")
+  prefix = [p for p in params if p.kind in ("PosOnly", "PosOrKw")]
+  nb = rng.randint(0, min(2, len(prefix)))
+  bound_pos = [7000 + i for i in range(nb)]
+  bound_kw = {}
+  cands = [p for p in params[nb:] if p.kind in ("PosOrKw", "KwOnly")]
+  if cands and rng.random() < 0.5:
+    p = rng.choice(cands)
+    bound_kw[p.name] = 7100
+  return functools.partial(base, *bound_pos, **bound_kw), bound_pos, bound_kw
 
 
 def view_of(result) -> Optional[dict]:
@@ -231,6 +269,9 @@ def signature_of(fn) -> List[Param]:
   out = []
   for p in sig.parameters.values():
     d = None if p.default is inspect.Parameter.empty else p.default
+    products = getattr(fn, "_verif_factory_products", {})
+    if p.name in products:
+      d = products[p.name]
     out.append(Param(p.name, _KIND_OF[p.kind], d))
   return out
 
